@@ -111,6 +111,15 @@ S3 = {
  "C20": " Session 3: every container tick that returns normally has scanned the estimations; an estimation reader faults only on a malformed id, never on stored state.",
 }
 
+for _k in list(S3):
+    pass
+S3_R13 = " Round 13: the failure model is decided for the property's contracts: no function with a deferred recover outside the who-may-catch table (one entry: container.deleteNNSRecords)."
+for _k in ["C01","C02","C03","C04","C05","C06","C07","C08","C09","C10","C11","C12","C14","C16","C17","C18","C19","C20"]:
+    S3[_k] = S3.get(_k, "") + S3_R13
+S3["C19"] += " Payment refusals end in util.Abort, not in a catchable panic."
+S3["C03"] += " Payment refusals end in util.Abort, not in a catchable panic."
+S3["C13"] += " Round 13: pending-released (every path of the tracker's goroutine releases the in-flight flag)."
+
 NA_PENDING = "check not yet registered in this revision of /verif (under construction); no claim is made"
 
 def main():
